@@ -97,9 +97,15 @@ impl<'recon> ScanState<'recon> {
         let padding_needed = bit_writer.padding_bits();
         if padding_needed != 0 {
             let bits = if let Some(padding_bitstream) = padding_bitstream {
-                padding_bitstream
-                    .read_bits(padding_needed)
-                    .map_err(|_| Error::InvalidData)?
+                // Padding bits are stored in the order they appear in the JPEG bitstream.
+                let mut bits = 0u32;
+                for _ in 0..padding_needed {
+                    let bit = padding_bitstream
+                        .read_bits(1)
+                        .map_err(|_| Error::InvalidData)?;
+                    bits = (bits << 1) | bit;
+                }
+                bits
             } else {
                 (-1i32) as u32
             };
